@@ -5,6 +5,7 @@ builds when a proof obligation is broken by a change to /repo.
 -/
 import DebInspector.Props.C01
 import DebInspector.Props.C03
+import DebInspector.Props.C04
 
 open Proto
 
@@ -13,6 +14,7 @@ def dispatch (op : String) (v : Val) : Option Val :=
   | "C01" => Props.C01.check.run v
   | "C01s" => Props.C01.checkS.run v
   | "C03" => Props.C03.check.run v
+  | "C04" => Props.C04.check.run v
   | _ => none
 
 def handle (line : String) : String :=
